@@ -768,7 +768,9 @@ fn run_live2(c: &[Val], expect: &[Val]) -> Val {
                 return;
             }
             let v = version.fetch_add(1, Ordering::SeqCst) + 1;
-            let target = dirp.join(format!("v{}.{}", v, ext(fmt)));
+            // the link's TARGET has a name of its own (no extension of a known format): the format is that of the
+            // configured path, the link
+            let target = dirp.join(format!("version-{}.data", v));
             let _ = std::fs::remove_file(&path);
             if st[0].n() != 0 {
                 apply_file(&target, &texts, st);
@@ -868,7 +870,66 @@ fn run_facade(c: &[Val]) -> Val {
     Val::L(out)
 }
 
+/// Once per process, before the first case: a reconfiguration during which a component of the OUTGOING configuration
+/// panics when it is dropped (the panic reaches set_config's caller, who catches it).  The swap itself has happened;
+/// the next reconfiguration - through this or any other handle of the process - works like any other.
+fn swap_history() -> Option<String> {
+    static DONE: AtomicBool = AtomicBool::new(false);
+    if DONE.swap(true, Ordering::SeqCst) {
+        return None;
+    }
+    #[derive(Debug)]
+    struct PanicsOnDrop;
+    impl Append for PanicsOnDrop {
+        fn append(&self, _r: &log::Record) -> anyhow::Result<()> {
+            Ok(())
+        }
+        fn flush(&self) {}
+    }
+    impl Drop for PanicsOnDrop {
+        fn drop(&mut self) {
+            if !std::thread::panicking() {
+                panic!("an appender that panics when dropped");
+            }
+        }
+    }
+    static HITS: AtomicUsize = AtomicUsize::new(0);
+    #[derive(Debug)]
+    struct Count;
+    impl Append for Count {
+        fn append(&self, _r: &log::Record) -> anyhow::Result<()> {
+            HITS.fetch_add(1, Ordering::SeqCst);
+            Ok(())
+        }
+        fn flush(&self) {}
+    }
+    let mk = |a: Box<dyn Append>| {
+        Config::builder()
+            .appender(Appender::builder().build("a", a))
+            .build(Root::builder().appender("a").build(log::LevelFilter::Trace))
+            .expect("config")
+    };
+    let lg = log4rs::Logger::new(mk(Box::new(PanicsOnDrop)));
+    let h = lg.verif_handle();
+    let first = std::panic::catch_unwind(std::panic::AssertUnwindSafe(|| h.set_config(mk(Box::new(Count)))));
+    let second = std::panic::catch_unwind(std::panic::AssertUnwindSafe(|| h.set_config(mk(Box::new(Count)))));
+    if second.is_err() {
+        return Some(format!(
+            "set_config after a reconfiguration whose outgoing appender panicked in its Drop (first call {}): the second call panicked",
+            if first.is_err() { "unwound" } else { "returned" }
+        ));
+    }
+    log_to(&lg, "probe", 1, format_args!("a"));
+    if HITS.load(Ordering::SeqCst) != 1 {
+        return Some("after such a reconfiguration a record was not delivered once by the newest configuration".to_string());
+    }
+    None
+}
+
 fn run(case: &Val) -> Val {
+    if let Some(bad) = swap_history() {
+        return Val::L(vec![Val::text(&bad)]);
+    }
     let c = case.l();
     match c[0].n() {
         0 => run_sched(c),
